@@ -159,7 +159,7 @@ def run_real(env, case):
             elif op == "restore":
                 data = (None, env.entry_real(case["lastE"]), env.entry_real(case["prevE"]),
                         set(N(i) for i in case["cluster"]))
-                env.ser.deserialize = lambda: data
+                env.ser.deserialize = lambda incoming=False: data
                 cf_obj = env.P("conf")
                 r = obj._SyncObj__loadDumpFile(clearJournal=True)
                 extra["ret"] = r
@@ -197,13 +197,14 @@ def run_real(env, case):
                         m["serialized"] = (b"chunk", False, sn != "notlast")
                         env.ser.setTransmissionData = (lambda d: False) if sn == "notlast" else (lambda d: True)
                         if sn == "broken":
-                            def boom():
+                            def boom(incoming=False):
                                 raise IOError("damaged dump")
                             env.ser.deserialize = boom
                         elif sn != "notlast":
                             data = (None, env.entry_real(sn["lastE"]), env.entry_real(sn["prevE"]),
                                     set(N(i) for i in sn["cluster"]))
-                            env.ser.deserialize = lambda: data
+                            env.ser.deserialize = lambda incoming=False: data
+                            env.ser.store_fails = bool(sn.get("storeFails"))
                 try:
                     obj._SyncObj__onMessageReceived(N(case["from"]), m)
                 finally:
@@ -332,7 +333,8 @@ def driver_line(env, case, real):
         else:
             sn = k["snap"]
             kj = {"snap": sn if (sn is None or isinstance(sn, str)) else
-                  {"prevE": ent(sn["prevE"]), "lastE": ent(sn["lastE"]), "cluster": sn["cluster"]}}
+                  {"prevE": ent(sn["prevE"]), "lastE": ent(sn["lastE"]), "cluster": sn["cluster"],
+                   "storeFails": bool(sn.get("storeFails"))}}
         return {"op": op, "conf": case["conf"], "state": js, "extra": case["extra"], "from": case["from"],
                 "term": case["term"], "commit": case["commit"], "kind": kj}
     if op == "journalfold":
@@ -1016,6 +1018,10 @@ class Gen(object):
                                                     leader=self.rng.choice([1, 2, None]), wr=[(4, 310)])
                                 kind = {"snap": {"prevE": pE, "lastE": lE, "cluster": cluster}}
                                 cases.append(self.env_case(st, kind, term, lc, dyn=dyn))
+                                if lc == lE[1] and cluster == [0, 1, 2]:
+                                    # repair D70: storing the received snapshot fails -> nothing is installed
+                                    kind = {"snap": {"prevE": pE, "lastE": lE, "cluster": cluster, "storeFails": True}}
+                                    cases.append(self.env_case(json.loads(json.dumps(st)), kind, term, lc, dyn=dyn))
         cases.append(self.env_case(self.env_state([], term=5), {"snap": {"prevE": pe, "lastE": le, "cluster": [0, 1]}}, 5, 3))
         cases.append(self.env_case(self.env_state([], term=5), {"regular": {"prev": [1, 0], "entries": []}}, 6, 3))
         return cases
@@ -1193,6 +1199,8 @@ def classify(case, real, model):
                     installed = [e[1] for e in model["state"]["log"]] == [sn["prevE"][1], sn["lastE"][1]] and model["state"]["lastApplied"] == sn["lastE"][1] and [e[1] for e in st["log"]] != [sn["prevE"][1], sn["lastE"][1]]
                     acked = any(o[0] == "send" and o[2]["t"] == "next" for o in model.get("out", []))
                     tags.append("env:snap-installed" if installed else ("env:snap-kept" if acked else "env:snap-load-failed"))
+                    if sn.get("storeFails"):
+                        tags.append("env:snap-store-fails-" + ("kept" if acked else "nothing-installed"))
                     if any(o[0] == "cb" for o in model.get("out", [])) and installed:
                         tags.append("env:snap-covered-callbacks")
             else:
@@ -1206,7 +1214,7 @@ FLOORS = ["send:drop-inside-burst", "send:drop-inside-burst-readonly", "probe:un
           "op:fappend", "op:frun", "op:restore", "op:reapply", "op:journalfold", "op:capture", "op:appendmsg", "env:stale-term", "env:term-adopted", "env:term-equal",
           "env:role-0", "env:role-1", "env:role-2", "env:leader-same", "env:leader-none", "env:leader-changed",
           "env:callbacks-leader-changed", "env:commit-raised", "env:commit-kept", "env:snap-none", "env:snap-notlast",
-          "env:snap-broken", "env:snap-installed", "env:snap-kept", "env:snap-covered-callbacks", "env:regular", "batch:regular", "batch:chunked", "batch:heartbeat", "batch:snapshot",
+          "env:snap-broken", "env:snap-store-fails-kept", "env:snap-store-fails-nothing-installed", "env:snap-installed", "env:snap-kept", "env:snap-covered-callbacks", "env:regular", "batch:regular", "batch:chunked", "batch:heartbeat", "batch:snapshot",
           "chunk:start", "chunk:process", "chunk:finish", "send:spin", "send:budget", "send:drop",
           "dispatch:appendLocal", "dispatch:appendRemote", "dispatch:denied", "dispatch:forward", "dispatch:notLeader",
           "dispatch:missingLeader", "gate:noop-unapplied", "gate:change-pending", "gate:change-cleared", "gate:open",
